@@ -45,6 +45,7 @@ structure Node where
   bias : Bool := false  -- has a bias (own, or created by BatchNorm fusion)
   mult : Nat := 1       -- flatten: spatial multiplier
   dup : Bool := false   -- a further invocation (fx call site) of a layer module invoked earlier
+  ta : Nat := 0         -- dup: the tensor node fed to the FIRST call site of that module
 deriving Repr, Inhabited
 
 abbrev Prog := List Node
@@ -73,17 +74,38 @@ def wfB (p : Prog) : Bool :=
   (List.range p.length).all fun i =>
     (p.nd i).kind = .input || (decide ((p.nd i).a < i) && decide ((p.nd i).b < i))
 
+/-- the tie argument of a further call site refers to an earlier node -/
+def tieOK (p : Prog) : Bool :=
+  (List.range p.length).all fun i => !(p.nd i).dup || decide ((p.nd i).ta < i)
+
 /-! ## sharing of quantizers (`build_shared_mps_qtz_map`) -/
 
 def relabel (old new : Nat) (ls : List Nat) : List Nat :=
   ls.map fun x => if x = old then new else x
 
+/-- tie edge (after 3725f20): the tensor fed to a further call site of a layer module joins the
+component of the tensor fed to its first call site (the module owns one in-quantizer and one
+features calculator) -/
+def tieLabels (ls : List Nat) (nd : Node) : List Nat :=
+  if nd.dup then relabel (ls.getD nd.a 0) (ls.getD nd.ta 0) ls else ls
+
 /-- component label of the next node; an add merges the components of its two operands -/
 def stepLabel (ls : List Nat) (nd : Node) : List Nat :=
+  match nd.kind with
+  | .input => ls ++ [ls.length]
+  | .conv | .linear => tieLabels ls nd ++ [ls.length]
+  | .add => relabel (ls.getD nd.b 0) (ls.getD nd.a 0) ls ++ [ls.getD nd.a 0]
+  | .dw => tieLabels ls nd ++ [(tieLabels ls nd).getD nd.a 0]
+  | _ => ls ++ [ls.getD nd.a 0]
+
+/-- `stepLabel` without the tie edge (the tree before 3725f20), for the regression witness -/
+def stepLabelPinned (ls : List Nat) (nd : Node) : List Nat :=
   match nd.kind with
   | .input | .conv | .linear => ls ++ [ls.length]
   | .add => relabel (ls.getD nd.b 0) (ls.getD nd.a 0) ls ++ [ls.getD nd.a 0]
   | _ => ls ++ [ls.getD nd.a 0]
+
+def labelsPinned (p : Prog) : List Nat := p.foldl stepLabelPinned []
 
 def labels (p : Prog) : List Nat := p.foldl stepLabel []
 
@@ -92,6 +114,10 @@ def Prog.lab (p : Prog) (i : Nat) : Nat := (labels p).getD i 0
 /-- the component holds a graph output: its activation quantizer is the `DummyQuantizer` -/
 def hasOutput (p : Prog) (l : Nat) : Bool :=
   (List.range p.length).any fun i => (p.nd i).kind = .output && p.lab i = l
+
+/-- the component holds a network input: its layers cannot prune their channels (c5daca1) -/
+def hasInput (p : Prog) (l : Nat) : Bool :=
+  (List.range p.length).any fun i => (p.nd i).kind = .input && p.lab i = l
 
 /-! ## quantizer objects and searchable modules -/
 
@@ -200,7 +226,7 @@ deriving Repr, Inhabited
 /-- candidate precisions of a quantizer object, in registration order -/
 def precOf (p : Prog) (c : Cfg) : QId → List Int
   | .act l => if hasOutput p l then [-1] else c.ap
-  | .wgt l => if c.perChannel && hasOutput p l then c.wp.filter (· ≠ 0) else c.wp
+  | .wgt l => if c.perChannel && (hasOutput p l || hasInput p l) then c.wp.filter (· ≠ 0) else c.wp
   | .inp _ => c.ip
   | .dflt => [-1]
 
